@@ -420,3 +420,38 @@ def C07(run):
     run.coverage['evaluations'] += len(cases) + len(alt)
 
 import props2
+import props3
+import props4
+
+
+def replay(run, path):
+    """re-run the input recorded in a replay file against the current /repo and the model; prints what is observed now"""
+    d = json.load(open(path))
+    print(json.dumps({k: v for k, v in d.items() if k in ('property', 'kind', 'what', 'signatures', 'broken')}, indent=1))
+    desc = d.get('minimal') or d.get('original') or d.get('first_disagreement')
+    if desc and 'blt' in desc and 'case' in desc:
+        try:
+            outcome, E, snaps = implrun.count_record(desc['blt'], desc['options'])
+            line = implrun.canonical_line(E, snaps) if outcome == 'OK' else outcome
+        except Exception as e:
+            line = 'CRASH-INIT ' + type(e).__name__
+        out = common.run_driver([desc['case'] + ' @@ ' + line])[0]
+        print('implementation:', line[:1500])
+        print('driver:', out)
+        m = campaign.ORACLE_RE.match(out)
+        bad = (not m) or any(v != '1' for v in campaign.parse_kv(m.group(2)).values()) or m.group(3) != '1'
+        return 1 if bad else 0
+    if 'case' in d and d['case'].startswith('OP '):
+        t = d['case'].split(' ')
+        it = (d.get('arithmetic', t[1]), int(t[2]), int(t[3]), t[4], t[5], t[6:])
+        import implops, props2
+        i = implops.run_op(it); m = common.run_driver([d['case']])[0]; s = props2.spec_op(*it)
+        print('implementation:', i, 'model:', m, 'specification:', s)
+        return 0 if i == m == s else 1
+    if 'text' in d:
+        import props3
+        r = props3.parse_text((d['text'], False)); m = common.run_driver(['PARSE ' + d['text'].encode('utf-8').hex()])[0]
+        print('implementation:', r[0][:600], r[1], r[2]); print('model:', m[:600])
+        return 0 if (r[0] == m and not r[1] and not r[2] and not r[0].startswith('CRASH')) else 1
+    print('replay file holds the full input; re-run the check to re-evaluate it')
+    return 0
